@@ -576,3 +576,72 @@ def check_C19(tier, seed):
     rep.notes['distinct_draws_per_program_sample'] = {k: sorted(v)[:8] for k, v in list(seen.items())[:12]}
     rep.assumptions += ['draws come from the process-global RNG seeded with VERIF_SEED in every worker']
     return rep.finish()
+
+
+PLAIN_BUT_UNREPRESENTABLE = ('Decimal:', 'int:huge', 'float:', 'too-deep', 'dict-with-non-str-keys', 'slicebound')
+AUDIT_DENY = ('open', 'os.', 'subprocess.', 'socket.', 'import', 'exec', 'compile', 'ctypes.', 'shutil.', 'urllib.', 'http.', 'ftplib.',
+              'smtplib.', 'webbrowser.', 'marshal.', 'pickle.', 'sqlite3.', 'pty.', 'fcntl.', 'mmap.', 'glob.', 'tempfile.', 'pathlib.',
+              'code.__new__', 'function.__new__', 'builtins.input', 'cpython.run', 'sys.settrace', 'sys.setprofile', 'sys._getframe',
+              'signal.', 'syslog.', 'telnetlib.', 'nntplib.', 'imaplib.', 'poplib.', 'resource.', 'gc.get_')
+
+
+def _opaque_values(v, path=''):
+    """Yield (path, type) of every value outside the specification's universe in a deep observed value."""
+    if isinstance(v, dict):
+        if v.get('t') == 'opaque':
+            yield path, v.get('type')
+        elif v.get('t') == 'hostfn':
+            yield path, 'host function ' + str(v.get('name'))
+        for k, x in v.items():
+            if k in ('items', 'runs', 'head', 'tail', 'v', 'a', 'b', 'c', 'out', 'names') or (path.endswith('names') or path.endswith('n1')):
+                yield from _opaque_values(x, path + '/' + str(k))
+    elif isinstance(v, list):
+        for i, x in enumerate(v):
+            yield from _opaque_values(x, path + '[%d]' % i)
+
+
+def check_C02(tier, seed):
+    quick = tier == 'quick'
+    os.environ['VERIF_AUDIT'] = '1'
+    rep = Report('C02', tier, seed)
+    devs = engine.open_deviations()
+    rep.notes['rule'] = ('TLC: every deterministic builtin of the table x argument tuples from a shape universe (None, bools, numbers, '
+                         'attribute-like / format-like strings, nested containers, a lambda, builtins as values, slice results) and two-stage '
+                         'compositions: AllPlain in every state (MC_C02); the grammar has no attribute access (NoAttrAccess over the '
+                         'production set, TLC ASSUME in MC_Parse); code: the same programs replayed + random programs incl. %a.b% names with '
+                         'bound heads: the projection of observed values is total only on the specification universe, so any other object '
+                         '(module, class, bound method, match object, view, iterator, frame, code) is reported; Python audit events raised '
+                         'while eval runs are checked against a deny list (file, process, network, import, exec/compile, ctypes, ...)')
+    res = engine.model_check(rep, 'MC_C02.tla', 'MC_C02.cfg', timeout=1500, coverage=not quick)
+    rep.exhaustive = True
+    extra, missing = _table_domain(rep)
+    if extra:
+        rep.violation('the builtin table exposes entries the specification does not know: %s (their results cannot be vouched for)' % extra,
+                      {'unknown_builtins': extra})
+    cases_all = []
+    if not rep.machinery:
+        cases_all += engine.replay_emitted(rep, _emitted(res), devs, sample=2000 if quick else 16000, seed=seed, what='TLC scenario') or []
+    scns = families.confinement_programs(seed, 2500 if quick else 25000)
+    cases = [c for c in vmrun.run_scenarios(scns) if 'harness_error' not in c]
+    engine.judge_cases(rep, cases, devs, what='program')
+    cases_all += cases
+    audit_seen = {}
+    for c in cases_all:
+        hostnames = set((c.get('host') or {}).keys())
+        for ev in c['events']:
+            if ev['e'] in ('x', 'end', 'p'):
+                for path, ty in _opaque_values(ev):
+                    if ty and not any(str(ty).startswith(p) for p in PLAIN_BUT_UNREPRESENTABLE) and not str(ty).startswith('host function'):
+                        rep.violation('a program obtained an object that is not plain data: %s (at %s); calls %r' %
+                                      (ty, path, [cl['src'] for cl in c['calls']]), {'case': engine.slim(c), 'type': ty})
+                        break
+        for cl in c['calls']:
+            for a in cl.get('audit', []):
+                audit_seen[a] = audit_seen.get(a, 0) + 1
+                if any(a == d or a.startswith(d) for d in AUDIT_DENY):
+                    rep.violation('evaluation raised the audit event %r (file/process/network/import/dynamic code): %r' % (a, cl['src']),
+                                  {'case': engine.slim(c), 'event': a})
+    rep.notes['audit_events_seen'] = audit_seen
+    rep.assumptions += ['audit events are recorded after one warm-up evaluation per worker (lazy imports of the first use excluded)',
+                        'side channels (timing, memory) are outside the property']
+    return rep.finish()
